@@ -92,10 +92,37 @@ def c29(out, tier, seed):
     out.add("replayed_walks", len(walks))
     out.add("model_transitions_constrained_by_property", len(wanted))
     out.add("model_transitions_confirmed_on_impl", len([e for e in confirmed if flt(g.edges[e][2])]))
-    out.add("traces_validated_against_impl", 0)
     if walks:
         init, w = walks[0]
         out.sample({"init": init, "walk": [g.edges[e][2]["act"] for e in w[:4]], "expected_out_last": g.edges[w[min(3, len(w) - 1)]][2]["out"]})
+
+
+def c29_trace(out, tier, seed):
+    """(T) implementation -> spec: seeded random sessions (3 connections, up to 6 requests each, permit pools 0..2)
+    recorded on the real server and re-executed by TLC on Trace_NtsKe."""
+    prop = "C29"
+    wd = vf.workdir("NtsKe_trace")
+    tf = os.path.join(wd, "trace_%s.ndjson" % prop)
+    sessions, steps = (120, 20) if tier == "quick" else (1200, 24)
+    vf.run_harness(CRATE, TEST_NTS, {"mode": "record", "seed": seed, "sessions": sessions, "steps": steps, "nconns": 3, "max_req": 6,
+                                     "output": tf}, timeout=3000)
+    events = sum(1 for _ in open(tf))
+    mism, done = [], []
+    res = vf.run_tlc("Trace_NtsKe", "Trace_NtsKe.cfg", workers=1, timeout=1500, env={"TRACE": tf}, tags=("MISMATCH", "DONE"),
+                     line_sink=lambda tag, obj: (mism if tag == "MISMATCH" else done).append(obj), coverage=False, xmx="4g")
+    if res.violated:
+        raise vf.ToolError("trace spec failed: %s\n%s" % (res.violated, res.error_trace[:2000]))
+    if not done or done[-1].get("consumed") != events:
+        raise vf.ToolError("trace validation did not consume the whole trace (%s of %d events)\n%s" % (done[-1] if done else None, events, res.stdout[-1500:]))
+    if events < 4 * sessions:
+        raise vf.ToolError("vacuous trace: %d events for %d sessions" % (events, sessions))
+    out.add("traces_validated_against_impl", done[-1].get("behaviours", 0))
+    out.add("trace_events", events)
+    for m in mism:
+        rec = {"act": m["act"], "cones": m["cones"], "post": m["expected"]["st"], "out": m["expected"]["out"], "ck": m["ck"]}
+        fail = {"fields": m["fields"], "observed": m["observed"], "panic": m.get("panic")}
+        _attribute(out, prop, "NtsKe", "Trace/tokens=%s" % m["pre"]["tokens"], rec, fail, [{"trace": tf, "line": m["line"], "pre": m["pre"]}],
+                   "trace", "%s:%s" % (m["ck"], _c29_sig(m["act"])))
 
 
 def _reach(g, start):
@@ -264,6 +291,7 @@ def run(prop, tier, seed):
                             "permit pool and release-on-return emulate ntpd/src/daemon/keyexchange.rs (semaphore) in the harness",
                             "code observed as compiled for tests (debug assertions, overflow checks)"]
         c29(out, tier, seed)
+        c29_trace(out, tier, seed)
     elif prop == "C28":
         out.coverage["rule"] = ("TLC enumerates all offer lists (length <= 2 quick / 3 thorough over 3 protocol and 3 algorithm symbols) x accepted-version "
                                 "sets x honest and adversarial well-formed answers and checks C28 on the transcribed choice functions; every case is "
@@ -290,10 +318,10 @@ def run(prop, tier, seed):
 PROPS = ["C29", "C28", "C30"]
 
 MANIFEST = {
-    "C29": dict(level="model_checking", engine="tlc+replay", design_ref="6.8, 7 (Key exchange group)",
+    "C29": dict(level="model_checking", engine="tlc+replay+trace", design_ref="6.8, 7 (Key exchange group)",
                 technique="TLA+ state machine of a key-exchange connection (spec/NtsKe.tla part 1) model-checked with TLC; every explored "
                           "transition constrained by the property replayed on the real KeyExchangeServer::handle_connection / handle_longterm "
-                          "over TLS on tokio duplex pipes (transition tour), answer bytes, handler results and permit pool compared after every step",
+                          "over TLS on tokio duplex pipes (transition tour), answer bytes, handler results and permit pool compared after every step; seeded random sessions (3 connections, <=6 requests, permits 0..2) validated against the spec by TLC (Trace_NtsKe)",
                 note="bounded model: 2 connections x <=2 (quick) / 3 (thorough) requests, token lists {none, one, two}, permits {0,1} (thorough {0,1,2}), "
                      "request classes kind x token {absent, t1, t2, proper prefix, empty} x keep-alive x {ok, unknown critical record}; "
                      "further pool requests on a kept-open connection are compared but not attributed to C29 (statement is silent)",
